@@ -268,6 +268,12 @@ def corpus_histories():
     ops += ['get %s -' % hx('d%02d' % i) for i in (0, 5, 19)] + ['scan -', 'crange 2 * *', 'layout', 'reopen', 'layout', 'scan -']
     out.append((dict(BASE_CFG), ops))
     out.append((dict(BASE_CFG, reuse_logs=1), list(ops)))
+    # (6) SEEK-triggered compaction of a level-0 table that overlaps an older level-0 table: F1=[a..z] (old a, m, old z),
+    #     F2=[a..z] (new a, new z, no m); lookups of m miss in F2 and hit in F1 until F2's seek allowance is used up
+    ops = ['open', 'put %s @3:1' % hx('a'), 'put %s @3:2' % hx('m'), 'put %s @3:3' % hx('z'), 'reopen',
+           'put %s @3:4' % hx('a'), 'put %s @3:5' % hx('z'), 'reopen', 'layout']
+    ops += ['get %s -' % hx('m')] * 140 + ['layout', 'get %s -' % hx('a'), 'get %s -' % hx('z'), 'scan -', 'reopen', 'get %s -' % hx('a'), 'layout']
+    out.append((dict(BASE_CFG), ops))
     # (5) log / MANIFEST reuse across many version edits: the reused MANIFEST grows past a 32 KiB block boundary
     #     (big keys make each edit ~6 KiB), then clean reopens
     big = lambda i: (bytes([0x62]) * 2990 + b'%04d' % i).hex()
